@@ -48,19 +48,11 @@ Proof.
 Qed.
 
 (* ---------------------------------------------------------------- integers *)
-Definition in_range (k : ikind) (z : Z) : bool :=
-  match k with
-  | I32 => (- 2 ^ 31 <=? z) && (z <? 2 ^ 31)
-  | I64 => true
-  | U32 => (0 <=? z) && (z <? 2 ^ 32)
-  | U64 => (0 <=? z) && (z <? 2 ^ 64)
-  end.
-
-Lemma cast_id k z : in_range k z = true -> cast k z = z.
+Lemma cast_id k z : bound_ok k z = true -> cast k z = z.
 Proof.
-  destruct k; cbn [in_range cast]; intro H.
+  destruct k; cbn [bound_ok cast]; intro H;
+    apply andb_true_iff in H as [H1 H2]; apply Z.leb_le in H1; apply Z.ltb_lt in H2.
   - unfold wrap_signed.
-    apply andb_true_iff in H as [H1 H2]. apply Z.leb_le in H1. apply Z.ltb_lt in H2.
     change (2 ^ 32) with 4294967296 in *. change (2 ^ (32 - 1)) with 2147483648 in *.
     change (2 ^ 31) with 2147483648 in *.
     destruct (Z_lt_dec z 0) as [Hn|Hp].
@@ -69,34 +61,54 @@ Proof.
       rewrite E. destruct (Z.ltb_spec (z + 4294967296) 2147483648); lia.
     + rewrite Z.mod_small by lia. destruct (Z.ltb_spec z 2147483648); lia.
   - reflexivity.
-  - apply andb_true_iff in H as [H1 H2]. apply Z.leb_le in H1. apply Z.ltb_lt in H2.
-    apply Z.mod_small. lia.
-  - apply andb_true_iff in H as [H1 H2]. apply Z.leb_le in H1. apply Z.ltb_lt in H2.
-    apply Z.mod_small. lia.
+  - apply Z.mod_small. lia.
+  - apply Z.mod_small. change (2 ^ 64) with 18446744073709551616.
+    change (2 ^ 63) with 9223372036854775808 in H2. lia.
 Qed.
 
-Definition opt_range (k : ikind) (o : option Z) : bool :=
-  match o with Some z => in_range k z | None => true end.
-
-(* admissible integer rules: bounds representable in the format, minimum <= maximum *)
+(* integer rules the compiler accepts: bounds representable in the format,
+   minimum <= maximum (checkIntegerBounds) *)
 Definition int_adm (k : ikind) (r : int_rules) : bool :=
-  opt_range k (ir_min r) && opt_range k (ir_max r) &&
+  opt_bound_ok k (ir_min r) && opt_bound_ok k (ir_max r) &&
   match ir_min r, ir_max r with Some a, Some b => a <=? b | _, _ => true end.
 
+(* what a successful write_int_rules tells *)
+Lemma write_int_ok k r c :
+  write_int_rules k r = Ok c ->
+  int_adm k r = true /\
+  c = CInt k
+        (match ir_max r with None => NoUb | Some m => if is_true (ir_xmax r) then Lt (cast k m) else Lte (cast k m) end)
+        (match ir_min r with None => NoLb | Some m => if is_true (ir_xmin r) then Gt (cast k m) else Gte (cast k m) end).
+Proof.
+  intro Hw. unfold write_int_rules in Hw. unfold int_adm.
+  destruct r as [mn mx xmn xmx]. cbn [ir_min ir_max ir_xmin ir_xmax] in *.
+  assert (Hw2 : (if negb (opt_bound_ok k mn) then Err "minimum out of range"
+                 else if negb (opt_bound_ok k mx) then Err "maximum out of range"
+                 else if match mn, mx with Some a, Some b => b <? a | _, _ => false end
+                 then Err "minimum is greater than maximum"
+                 else Ok (CInt k
+                   (match mx with None => NoUb | Some m => if is_true xmx then Lt (cast k m) else Lte (cast k m) end)
+                   (match mn with None => NoLb | Some m => if is_true xmn then Gt (cast k m) else Gte (cast k m) end))) = Ok c).
+  { destruct xmn as [[|]|], mn, xmx as [[|]|], mx; try discriminate; exact Hw. }
+  clear Hw.
+  destruct (opt_bound_ok k mn); cbn [negb] in Hw2; [|discriminate].
+  destruct (opt_bound_ok k mx); cbn [negb] in Hw2; [|discriminate].
+  destruct (match mn, mx with Some a, Some b => b <? a | _, _ => false end) eqn:E; [discriminate|].
+  split; [|congruence].
+  cbn [andb]. destruct mn as [a|], mx as [b|]; try reflexivity.
+  apply Z.ltb_ge in E. apply Z.leb_le. exact E.
+Qed.
+
 Lemma int_sem rm defined k r c z :
-  int_adm k r = true -> write_int_rules k r = Ok c ->
+  write_int_rules k r = Ok c ->
   eval_scalar rm defined c (VInt z) = int_rule_ok r z.
 Proof.
-  intros Hadm Hw. unfold write_int_rules in Hw.
+  intro Hw. apply write_int_ok in Hw as [Hadm Hc]. subst c.
   destruct r as [mn mx xmn xmx]. cbn [ir_min ir_max ir_xmin ir_xmax] in *.
   unfold int_adm in Hadm. cbn [ir_min ir_max] in Hadm.
   apply andb_true_iff in Hadm as [Hadm Hord]. apply andb_true_iff in Hadm as [Hrmn Hrmx].
-  assert (Hc : c = CInt k
-            (match mx with None => NoUb | Some m => if is_true xmx then Lt (cast k m) else Lte (cast k m) end)
-            (match mn with None => NoLb | Some m => if is_true xmn then Gt (cast k m) else Gte (cast k m) end)).
-  { destruct xmn as [[|]|], mn, xmx as [[|]|], mx; cbn in Hw |- *; try discriminate; inversion Hw; reflexivity. }
-  subst c. clear Hw. cbn [eval_scalar]. unfold int_rule_ok. cbn [ir_min ir_max ir_xmin ir_xmax].
-  destruct mn as [a|], mx as [b|]; cbn [opt_range] in *;
+  cbn [eval_scalar]. unfold int_rule_ok. cbn [ir_min ir_max ir_xmin ir_xmax].
+  destruct mn as [a|], mx as [b|]; cbn [opt_bound_ok] in *;
     try rewrite (cast_id k a Hrmn); try rewrite (cast_id k b Hrmx);
     destruct (is_true xmn), (is_true xmx); cbn [int_ok];
     try (apply Z.leb_le in Hord);
@@ -295,13 +307,10 @@ Qed.
 (* ================================================================ C12 *)
 Definition elem_ty (t : pty) : fty := match t with PSingle t | PArray _ _ t | PMap t => t end.
 
-Definition ty_adm (t : fty) : bool :=
-  match t with TInt k (Some r) _ => int_adm k r | _ => true end.
-
-(* admissible declaration: the referenced enum is well-formed, integer bounds are
-   representable in the declared format and ordered *)
-Definition admissible (env : enum_env) (d : prop) : bool :=
-  wf_env env && ty_adm (elem_ty (p_ty d)).
+(* admissible declaration: the referenced enum is well-formed (its value names
+   are pairwise different, as protobuf requires). Nothing is asked of the rules:
+   what the compiler accepts is meant as declared. *)
+Definition admissible (env : enum_env) (d : prop) : bool := wf_env env.
 
 Definition is_absent (fv : fvalue) : bool := match fv with FAbsent => true | _ => false end.
 
@@ -325,10 +334,10 @@ Lemma obind_ok {A B} (o : outcome A) (f : A -> outcome B) b :
 Proof. destruct o; cbn; intro H; try discriminate. eauto. Qed.
 
 Lemma scalar_sem env t w v :
-  wf_env env = true -> ty_adm t = true -> write_field env t = Ok w -> value_typed t v = true ->
+  wf_env env = true -> write_field env t = Ok w -> value_typed t v = true ->
   item_ok (defined_numbers env) w v = ty_ok re_match env t v.
 Proof.
-  intros Hwf Hadm Hw Hty. unfold item_ok.
+  intros Hwf Hw Hty. unfold item_ok.
   destruct t as [k r l|r l|r|r l|r l|f e l|f64 l|r l|r l|l|l|fl|l]; cbn [write_field] in Hw.
   - (* integer *)
     apply obind_ok in Hw as [vo [Hv Hw]]. inversion Hw; subst w; clear Hw. cbn [fw_val].
@@ -444,11 +453,11 @@ Theorem c12_main env idx d o fv :
   validate_sem re_match (defined_numbers env) o fv = rule_sem re_match env d fv.
 Proof.
   intros Hadm Hw Hty.
-  unfold admissible in Hadm. apply andb_true_iff in Hadm as [Hwf Hadm].
+  unfold admissible in Hadm. rename Hadm into Hwf.
   destruct d as [name req opt ty desc]. cbn [p_name p_req p_opt p_ty p_desc] in *.
   unfold write_prop in Hw. cbn [p_name p_req p_opt p_ty p_desc] in Hw.
   apply obind_ok in Hw as [w [Hwf0 Hw]].
-  destruct ty as [t|r sf t|t]; cbn [elem_ty] in Hadm.
+  destruct ty as [t|r sf t|t].
   - (* singular *)
     rename Hwf0 into Hwt.
     pose proof (write_field_primary env t w Hwt) as Hprim.
@@ -471,7 +480,7 @@ Proof.
       * unfold set_required. destruct (fw_val w); reflexivity.
       * destruct (fw_val w) as [c|] eqn:Ev; [|reflexivity].
         rewrite (write_field_noreq env t w c Hwt Ev). reflexivity.
-    + pose proof (scalar_sem env t w v Hwf Hadm Hwt Hty) as Hs. unfold item_ok in Hs.
+    + pose proof (scalar_sem env t w v Hwf Hwt Hty) as Hs. unfold item_ok in Hs.
       assert (He : forall tc, eval_scalar re_match (defined_numbers env) tc v
                               = eval_tyc re_match (defined_numbers env) tc (FOne v))
         by (intro tc; destruct tc; reflexivity).
@@ -505,9 +514,9 @@ Proof.
     unfold fvalue_typed in Hty. cbn [p_ty] in Hty.
     destruct fv as [|v|vs]; try discriminate.
     assert (Hitems : forallb (item_ok (defined_numbers env) wi) vs = forallb (ty_ok re_match env t) vs).
-    { clear - Hty Hwf Hadm Hwt re_id62. induction vs as [|v r IH]; [reflexivity|].
+    { clear - Hty Hwf Hwt re_id62. induction vs as [|v r IH]; [reflexivity|].
       cbn [forallb] in *. apply andb_true_iff in Hty as [H1 H2].
-      rewrite (scalar_sem env t wi v Hwf Hadm Hwt H1). rewrite IH by exact H2. reflexivity. }
+      rewrite (scalar_sem env t wi v Hwf Hwt H1). rewrite IH by exact H2. reflexivity. }
     unfold item_ok in Hitems.
     assert (Ho : fo_val o = (if required then set_required (fw_val (wrap_array r sf wi)) else fw_val (wrap_array r sf wi))
                  /\ fo_pres o = false /\ fo_rep o = true).
